@@ -76,19 +76,9 @@ DECIDE = 1e-4            # a step is decidable against the exact reference iff B
 EXACT_BUDGET = 60000     # per-case budget of the exact side: m * [2 if dense P] * [4 if complex] * n^2 * k^3
 EXACT_NMAX = 16
 
-# Genuine defect found in round 2, not (yet) in /verif/known_findings.json -- PROVISIONAL: treated as known so
-# that the check exits 0 on the unchanged tree while printing a KNOWN-FINDING line (see the report).
-PROVISIONAL_KNOWN = {
-    "tiny-operator-scale": {
-        "property": "C12", "clause": "tiny-operator-scale",
-        "call_site": "cola/linalg/inverse/cg.py do_safe_div (abs(denom) < 1e-40) via update_alpha / update_gamma_beta",
-        "witness": {"A": "1e-41 * [[2,-1,0],[-1,2,-1],[0,-1,2]]", "b": [1.0, 0.0, 0.0], "x0": None, "tol": 1e-6, "max_iters": 3,
-                    "call": "cg(PSD(Dense(A)), b, max_iters=3, tol=1e-6)"},
-        "what": "the guarded divisions compare <p, A p> and gamma with the ABSOLUTE constant 1e-40: for a Hermitian positive-definite "
-                "operator of tiny scale (condition number < 6, entries ~1e-41) alpha is computed with the denominator replaced by 1e-40, "
-                "the iterates are not Krylov-optimal and CG does not converge in n steps (Lean witness C12_guard_clause_needed; the "
-                "right-hand side is normalised, the operator is not)"},
-}
+# no provisional findings: `tiny-operator-scale` (found in round 2) was repaired in /repo by 1a4d949 (do_safe_div:
+# exact zero test); the fixed probe `tiny_scale_probe` stays as a regression check
+PROVISIONAL_KNOWN = {}
 
 
 # ----------------------------------------------------------------------------- exact transport
@@ -914,7 +904,8 @@ def tiny_rhs_probe():
 
 
 def tiny_scale_probe():
-    """PROVISIONAL finding `tiny-operator-scale`: Hermitian positive-definite operator of scale 1e-41 (condition number < 6)"""
+    """regression probe for the repaired defect `tiny-operator-scale` (/repo 1a4d949; Lean: C12_tiny_scale_regression):
+    Hermitian positive-definite operator of scale 1e-41 (condition number < 6)"""
     T = np.array([[2.0, -1.0, 0.0], [-1.0, 2.0, -1.0], [0.0, -1.0, 2.0]])
     b = np.array([1.0, 0.0, 0.0])
     out = {}
@@ -1004,18 +995,11 @@ def run(ctx):
             common.violation(ctx, {"case": None, "violated": [{"clause": "scale / optimal", "detail": "cg(diag(2,3), 1e-45*[1,1]) / 1e-45 != [1/2, 1/3]", "probe": tiny}],
                                    "how": "fixed probe: right-hand side of norm below 1e-40 (the 1e-40 clamp of the normalisation is back)"})
     tscale = tiny_scale_probe()
-    if tscale["defect_present"]:
-        known = common.known_clauses(ctx.prop)
-        if "tiny-operator-scale" in known or "tiny-operator-scale" in PROVISIONAL_KNOWN:
-            tag = "" if "tiny-operator-scale" in known else " [PROVISIONAL, not yet in known_findings.json]"
-            common.known_finding(ctx, "tiny-operator-scale", PROVISIONAL_KNOWN["tiny-operator-scale"]["what"] + tag +
-                                 f"; cg(PSD(Dense(1e-41*tridiag(-1,2,-1))), e0, max_iters=3, tol=1e-6)*1e-41 = {tscale['1e-41']['x*scale']} instead of [0.75, 0.5, 0.25]")
-        else:
-            common.violation(ctx, {"case": None, "violated": [{"clause": "optimal", "probe": tscale}],
-                                   "how": "fixed probe: Hermitian positive-definite operator of scale 1e-41"})
-    elif not tscale["control_ok (scale 1e-30)"]:
-        common.violation(ctx, {"case": None, "violated": [{"clause": "optimal", "probe": tscale}],
-                               "how": "fixed probe: cg on 1e-30 * tridiag(-1,2,-1) does not return the solution after 3 steps"})
+    if tscale["defect_present"] or not tscale["control_ok (scale 1e-30)"]:
+        common.violation(ctx, {"case": None, "violated": [{"clause": "optimal", "probe": tscale,
+                                                          "call": "cg(PSD(Dense(s * [[2,-1,0],[-1,2,-1],[0,-1,2]])), [1,0,0], None, None, 1e-6, 3) for s in (1e-30, 1e-41)"}],
+                               "how": "fixed probe: cg on a Hermitian positive-definite operator of tiny scale does not return the solution after n = 3 steps "
+                                      "(an absolute threshold in do_safe_div is back)"})
     st = chk.stats
     cov = {
         "evaluations": st["evaluations"],
@@ -1055,13 +1039,13 @@ def run(ctx):
     }
     common.write_evidence(ctx, gate, cov, assumptions=[
         "theorems are about exact real/complex arithmetic (RCLike instance of the model); the IEEE run of the same model text is what the correspondence compares",
-        "C12_optimal holds for non-zero columns while no guard of take_cg_step (1e-40 thresholds, relative to |b|) is active; C12_scale and C12_zero are unconditional",
+        "C12_optimal_mask holds for non-zero columns while the has_converged mask of take_cg_step (relative residual < 1e-40) has not acted; C12_scale and C12_zero are unconditional",
         "IEEE range: below |b| ~ 1e-154 the squares inside np.linalg.norm underflow and a non-zero column is treated as zero (returns 0); outside the exact-arithmetic model, recorded under observations",
         "a zero column with x0 != 0 has no relative tolerance (|b| = 0): the code iterates on (0, x0) un-normalised and returns exactly 0; the stops-as-soon-as clause leaves such cases out",
         "AdaNysPrecond (randomised Nystrom preconditioner) is not exercised; any Hermitian positive-definite P is covered by the theorems and dense SPD P by the stream",
         "quick: kappa <= 1e3, n <= 12; thorough: n <= 40 in the main stream plus 48 cases with n in {50, 100, 200}, kappa in {1e3..1e6} (float side: real vs float model with the measured-sensitivity rule on caps 0..K <= 24, one run to convergence judged model-free); the float Krylov-optimum oracle is applied at every step for kappa_eff <= 100 and at steps <= 5 above",
         "comparison with the exact Krylov-optimal iterate only on steps where the bound B_k is informative (<= 1e-4); B_k is an amplification model calibrated by measurement, not a theorem -- beyond it floating-point CG is not comparable with exact CG step by step",
-        "C12_optimal_inputs: one right-hand side and tol admissible for lambda_min(A), lambda_min(P) need no hypothesis on intermediates; batches and smaller tolerances keep the residual hypothesis (C12_optimal_resid); operator scales below ~1e-20 violate it (PROVISIONAL finding tiny-operator-scale)",
+        "C12_optimal_single: one right-hand side and tol >= 1e-40 need no hypothesis beyond HPD A, P; C12_optimal_any: every tol >= 0 and every batch, the returned column is the Krylov-optimal iterate of some k' <= k with k' < k only for a column already converged below 1e-40 |b| (the has_converged mask of take_cg_step is still in the code); the divisions are guarded by an exact zero test since /repo 1a4d949",
     ])
     print(json.dumps({"cases": st["cases"], "evaluations": st["evaluations"], "distinct_nontrivial": len(st["nontrivial"]),
                       "real_violations": n_real_viol, "correspondence": n_corr, "knife": st["knife_edge"],
